@@ -1,4 +1,5 @@
 import Crd.Lemmas.Dict
+import Crd.Lemmas.DictLast
 import Crd.Lemmas.Degree
 
 /-!
@@ -171,6 +172,60 @@ theorem resolve_inherits (ua : List Attr) (uc : List ChordDef) (d : Dict) (hd : 
     rw [show (d.chords.map (·.1)).eraseDups.length + 2 = ((d.chords.map (·.1)).eraseDups.length + 1) + 1 from rfl,
       chordAttrsF_succ d _ n c hc, if_neg hp, A1]
 
+/-- an accepted dictionary IS the built-in entries followed by the user's, indexed by name and by symbol -/
+theorem accepted_is_built (ua : List Attr) (uc : List ChordDef) (d : Dict) (hd : newDict ua uc = some d) :
+    d = buildRaw (builtinAttrs ++ ua) (builtinChords ++ uc) := by
+  have hs : (newDict ua uc).isSome = true := by simp [hd]
+  have h2 := ((accept_iff ua uc).mp hs).2
+  unfold newDict build at hd
+  simp only [((accept_iff ua uc).mp hs).1, if_true, h2] at hd
+  exact (Option.some.inj hd).symm
+
+/-- **long names and display symbols share one space of names, and the last definition that claims a name has
+it**: in every accepted dictionary the chord found under `n` is the last entry of (built-ins, then the user's chords
+in the order given) whose display symbol or long name is `n` — whatever that entry itself is otherwise called,
+and however the entry that lost the name is called -/
+theorem last_definition_wins (ua : List Attr) (uc : List ChordDef) (d : Dict) (hd : newDict ua uc = some d) (n : String) :
+    d.chord n = (builtinChords ++ uc).reverse.find? (fun c => c.display = n || c.name = n) := by
+  rw [accepted_is_built ua uc d hd]
+  exact chord_lookup_last _ _ n
+
+/-- a user chord that claims a name (as its long name or as its symbol) and is not followed by another claimant
+has it, also when a built-in chord is called so -/
+theorem user_takes_over (ua : List Attr) (pre post : List ChordDef) (u : ChordDef) (d : Dict)
+    (hd : newDict ua (pre ++ u :: post) = some d) (n : String) (hu : u.display = n ∨ u.name = n)
+    (hpost : ∀ c ∈ post, c.display ≠ n ∧ c.name ≠ n) : d.chord n = some u := by
+  rw [last_definition_wins ua _ d hd n]
+  simp only [List.reverse_append, List.reverse_cons, List.append_assoc, List.find?_append]
+  have h1 : List.find? (fun c => c.display = n || c.name = n) post.reverse = none := by
+    rw [List.find?_eq_none]
+    intro c hc
+    have := hpost c (List.mem_reverse.mp hc)
+    simp [this.1, this.2]
+  have h2 : List.find? (fun c => c.display = n || c.name = n) [u] = some u := by
+    rcases hu with h | h <;> simp [List.find?_cons, h]
+  simp [h1, h2]
+
+/-- a name no user chord claims keeps its built-in meaning -/
+theorem builtin_name_untouched (ua : List Attr) (uc : List ChordDef) (d : Dict) (hd : newDict ua uc = some d) (n : String)
+    (hn : ∀ c ∈ uc, c.display ≠ n ∧ c.name ≠ n) : d.chord n = builtin.chord n := by
+  rw [last_definition_wins ua uc d hd n]
+  have hb : builtin = buildRaw (builtinAttrs ++ []) (builtinChords ++ []) := by
+    have : newDict [] [] = some builtin := by
+      unfold builtin
+      cases h : newDict [] [] with
+      | none => exact absurd h (by have := builtin_loads; simp_all)
+      | some x => rfl
+    exact accepted_is_built [] [] builtin this
+  rw [hb, chord_lookup_last]
+  simp only [List.append_nil, List.reverse_append, List.find?_append]
+  have h1 : List.find? (fun c => c.display = n || c.name = n) uc.reverse = none := by
+    rw [List.find?_eq_none]
+    intro c hc
+    have := hn c (List.mem_reverse.mp hc)
+    simp [this.1, this.2]
+  simp [h1]
+
 /-! non-vacuity: a user dictionary with a two-level inheritance chain is accepted and resolves transitively;
 a two-entry cycle is rejected -/
 def exAttrs : List Attr := [⟨"Eleventh", ⟨11, .perfect⟩⟩]
@@ -178,5 +233,8 @@ def exChords : List ChordDef := [⟨"Mine", "mine", ["Eleventh"], "m7"⟩, ⟨"M
 example : ((newDict exAttrs exChords).bind fun d => semis d "mine2") = some [0, 3, 7, 10, 17, 14] := by decide
 example : newDict [] [⟨"X", "x", [], "Y"⟩, ⟨"Y", "y", [], "X"⟩] = none := by decide
 example : newDict [] [⟨"X", "x", ["Nope"], ""⟩] = none := by decide
+/-- a user chord named like the diminished triad's symbol takes `dim` over; the triad stays reachable by its long name -/
+example : ((newDict [] [⟨"dim", "o", ["Perfect1", "Minor3", "Diminished5", "Major6"], ""⟩]).bind fun d => semis d "dim") = some [0, 3, 6, 9] ∧
+    ((newDict [] [⟨"dim", "o", ["Perfect1", "Minor3", "Diminished5", "Major6"], ""⟩]).bind fun d => semis d "DiminishedTriad") = some [0, 3, 6] := by decide
 
 end Crd.Props.C16
